@@ -1,8 +1,9 @@
 /-
-  Driver for the HTTP gateway model (C20).  One request per line, 17 tokens:
+  Driver for the HTTP gateway model (C20).  One request per line, 21 tokens:
 
     req <key> <pattern> <method> <path> <query> <keyhdr> <options> <corr>
         <rmatch> <nsget> <nslist> <lookup> <connect> <pyroerrs> <bind> <meta> <result>
+        <preSer> <preTmo> <appTmo>
 
   Str = comma separated code points ("-" = empty string); List Str = Strs joined by ";" ("~" = empty list)
     key      none | <hex>                 pattern  none | <Str>
@@ -18,7 +19,11 @@
     result   none | ret:<hex> | exc:<hex> | raised:<cls>   (what a non-oneway invocation gives back)
     cls      assertion | attribute | value | type | o<id>
 
-  Answer:  <status> <ctype> <corr 0/1> <body> # <action>*     |   escaped <cls> # <action>*
+    preSer   Pyro5.config.SERIALIZER before the request (json|serpent|marshal|msgpack), preTmo its COMMTIMEOUT (ms),
+    appTmo   pyro_app.comm_timeout (ms)
+
+  Answer:  <status> <ctype> <corr 0/1> <body> # <action>* cfg:<ser>:<tmo>   |   escaped <cls> # <action>* cfg:..
+           (cfg = the configuration in force while and after the request)
   If the model asked `rmatch` for a name outside the table the answer is "bad-table" (the model is
   run with both defaults and the answers compared).
 -/
@@ -137,9 +142,16 @@ def sOut (r : Reply × List Action) : String :=
   | .http x => s!"{x.status} {sCType x.ctype} {if x.corrId then 1 else 0} {sBody x.body}" ++ tail
   | .escaped c => "escaped " ++ sCls c ++ tail
 
+def pSer (s : String) : Option Ser :=
+  if s == "json" then some .json else if s == "serpent" then some .serpent
+  else if s == "marshal" then some .marshal else if s == "msgpack" then some .msgpack else none
+
+def sSer : Ser → String
+  | .json => "json" | .serpent => "serpent" | .marshal => "marshal" | .msgpack => "msgpack"
+
 def step : List String → String
   | ["req", key, pattern, method, path, query, keyhdr, options, corr,
-     rmatch, nsget, nslist, lookup, connect, pyroerrs, bind, metaTok, result] =>
+     rmatch, nsget, nslist, lookup, connect, pyroerrs, bind, metaTok, result, preSer, preTmo, appTmo] =>
     let r : Option String := do
       let key : Option Bytes ← if key == "none" then some none else (hexToBytes key).map some
       let pattern : Option Str ← if pattern == "none" then some none else (pStr pattern).map some
@@ -175,8 +187,13 @@ def step : List String → String
         call := fun _ _ _ ow => if ow then .none else res
         getattr := fun _ _ => res }
       let cfg : Cfg := { key, pattern }
-      let o1 := sOut (app cfg (be false) req)
-      let o2 := sOut (app cfg (be true) req)
+      let before : PyroConfig := { serializer := ← pSer preSer, commTimeout := ← preTmo.toNat? }
+      let tmo ← appTmo.toNat?
+      let out (dflt : Bool) : String :=
+        let o := appC cfg tmo (be dflt) before req
+        sOut (o.reply, o.actions) ++ s!" cfg:{sSer o.config.serializer}:{o.config.commTimeout}"
+      let o1 := out false
+      let o2 := out true
       pure (if o1 == o2 then o1 else "bad-table")
     r.getD "bad-op"
   | _ => "bad-op"
